@@ -87,3 +87,36 @@ Theorem C07_requested_type_fill_is_missing : forall k sz be cx,
     cell_ok (mkCell k' sz' be' cx) = true.
 Proof. exact requested_type_fill_is_missing. Qed.
 Print Assumptions C07_requested_type_fill_is_missing.
+
+(* ---- the fill table itself, regenerated.  Gen/FillTable.v is digital_rf_set_fill_value executed
+   (its clang AST, by translator T5) once for each of the forty cells with the HDF5 type queries
+   answering for the cell: return value and the H5Pset_fill_value call made.  Every cell returns 0 and
+   makes exactly one call, under the complex type id iff the channel is complex, with as many bytes as
+   the type has, and those bytes decode to the missing value in both components. *)
+From DRF Require Import Gen.FillTable Proofs.FillTableProofs Proofs.FillChain.
+
+Theorem C07_regenerated_fill_decodes_to_missing : forall k sz be cx,
+  In (k, sz) [(KI, 1); (KI, 2); (KI, 4); (KI, 8); (KU, 1); (KU, 2); (KU, 4); (KU, 8); (KF, 4); (KF, 8)] ->
+  exists img, table_lookup (mkCell k sz be cx) = Some (0, [(cx, img)]) /\
+              Z.of_nat (List.length img) = (if cx then 2 * sz else sz) /\
+              forallb (fun comp => is_missing (mkCell k sz be cx) (raw_value (mkCell k sz be cx) comp))
+                      (components (mkCell k sz be cx) img) = true.
+Proof. exact regenerated_fill_decodes_to_missing. Qed.
+Print Assumptions C07_regenerated_fill_decodes_to_missing.
+
+Theorem C07_regenerated_table_domain : map fst fill_table = all_cells.
+Proof. exact regenerated_table_domain. Qed.
+Print Assumptions C07_regenerated_table_domain.
+
+(* both regenerated tables chained: requested numpy type -> stored HDF5 type -> stored fill bytes *)
+Theorem C07_requested_type_to_stored_fill : forall k sz be cx,
+  In (k, sz) [(KI, 1); (KI, 2); (KI, 4); (KI, 8); (KU, 1); (KU, 2); (KU, 4); (KU, 8); (KF, 4); (KF, 8)] ->
+  exists name k' sz' be' img,
+    get_hdf5_data_type (byteorder_char (mkNp k sz be)) (kind_char (mkNp k sz be)) sz = Some name /\
+    h5_predef name = Some (k', sz', be') /\ k' = k /\ sz' = sz /\ (sz = 1 \/ be' = be) /\
+    table_lookup (mkCell k' sz' be' cx) = Some (0, [(cx, img)]) /\
+    Z.of_nat (List.length img) = (if cx then 2 * sz' else sz') /\
+    forallb (fun comp => is_missing (mkCell k' sz' be' cx) (raw_value (mkCell k' sz' be' cx) comp))
+            (components (mkCell k' sz' be' cx) img) = true.
+Proof. exact requested_type_to_stored_fill. Qed.
+Print Assumptions C07_requested_type_to_stored_fill.
